@@ -5,7 +5,7 @@ rows=[]
 for p in sorted(glob.glob('/verif/seeded/*/meta.json')):
     m=json.load(open(p))
     esc=lambda s: s.replace('|','\\|').replace('\n',' ')
-    rows.append("| %s | %s — *%s* | %s |"%(m['property'],esc(m['change']),esc(m['needs_to_manifest']),esc(m['caught_by'])))
+    rows.append("| %s | %s — *%s* | %s |"%(m['property']+(" (round %d)"%m['round'] if m.get('round',1)>1 else ""),esc(m['change']),esc(m['needs_to_manifest']),esc(m['caught_by'])))
 n=len(rows)
 missed=sum(1 for p in glob.glob('/verif/seeded/*/meta.json') if 'at first' in json.load(open(p))['caught_by'] or 'first reported' in json.load(open(p))['caught_by'] or 'first run' in json.load(open(p))['caught_by'])
 table="| property | seeded change — *what it needs to manifest* | caught by (and what had to be strengthened) |\n|---|---|---|\n"+"\n".join(rows)+"\n"
@@ -14,8 +14,10 @@ a=s.index("## 9. Seeded changes")
 b=s.index("## 10. False alarms")
 intro="""## 9. Seeded changes: which checks catch which
 
-%d changes to lmorg/murex (one per claimed property that has one) were written by independent sub-agents that saw only
-the text of one property and a scratch worktree of /repo (nothing from /verif). Each compiles, passes the existing
+%d changes to lmorg/murex were written by independent sub-agents that saw only the text of one property and a scratch
+worktree of /repo (nothing from /verif): a first round with one change for each of the 37 claimed properties, and a
+second round (directories `<ID>b`) in which the seeder was additionally told to pick the part of the statement that a
+verification effort is least likely to have covered. Each compiles, passes the existing
 tests of the packages it touches (and, per the seeder, the broader suite) and comes with a demonstration test that fails
 with the change and passes without it; all of that was re-confirmed by the main session in a scratch worktree
 (`tools/confirm_seeds.sh`). They are kept in `/verif/seeded/<ID>/` (patch.diff, demonstration, meta.json, the seeder's
